@@ -45,6 +45,8 @@ type HarnessSpec struct {
 	Steps     int64
 	TimeoutS  int
 	NoReplay  bool
+	ScaleFrom int64 // scaleconst: constant value replaced ...
+	ScaleTo   int64 // ... by this one (0,0 = off)
 }
 
 type Program struct {
@@ -160,6 +162,14 @@ func DiscoverHarnesses(harnessDir string) ([]*HarnessSpec, map[string][]byte, er
 								spec.Doc = v
 							case "noreplay":
 								spec.NoReplay = v == "1" || v == "true"
+							case "scaleconst":
+								// FROM:TO -- every integer constant FROM of the target code evaluates to TO
+								// (a scaled-down frame limit); such a harness cannot replay natively
+								if a, b, ok := strings.Cut(v, ":"); ok {
+									spec.ScaleFrom, _ = strconv.ParseInt(a, 10, 64)
+									spec.ScaleTo, _ = strconv.ParseInt(b, 10, 64)
+									spec.NoReplay = true
+								}
 							}
 						}
 					case "stub", "mock":
@@ -424,6 +434,7 @@ func (w *worker) runPath(ex *Explorer, spec *HarnessSpec, fn *ssa.Function, it *
 	in.stepLimit = ex.StepLimit
 	in.trailOn = true
 	in.resetScheduler()
+	in.scaleFrom, in.scaleTo = spec.ScaleFrom, spec.ScaleTo
 	if strings.HasPrefix(spec.Sched, "symbolic") {
 		in.sched.symbolic = true
 		in.sched.maxPreempt = 2
